@@ -20,7 +20,7 @@ out=$(RV_REPO="$W" RV_NO_EVIDENCE=1 ./check "$P" --tier "$TIER" 2>&1); rc=$?
 mech=$(echo "$out" | grep "observed mechanism" | grep -v "known:" | sed 's/.*observed mechanism //' | tr '\n' ';' | cut -c1-300)
 echo "RESULT $NAME suite='$suite' demo_with=$rc_with demo_without=$rc_without check_rc=$rc tier=$TIER mechanisms=$mech"
 mkdir -p "/verif/seeded/$NAME"
-cp "$SRC/patch.diff" "$SRC/demo.py" "/verif/seeded/$NAME/"
+[ "$SRC" = "$(realpath /verif/seeded/$NAME)" ] || cp "$SRC/patch.diff" "$SRC/demo.py" "/verif/seeded/$NAME/"
 /venv/bin/python - "$P" "$NAME" "$SRC" "$suite" "$rc_with" "$rc_without" "$rc" "$TIER" "$mech" <<'PY'
 import json, sys, os
 p, name, src, suite, rw, rwo, rc, tier, mech = sys.argv[1:]
